@@ -1,5 +1,5 @@
 CONSTANTS Budget = 1 MaxItems = 1 Sim = FALSE Headers = "base"
-  Masked = {"pas_var"}
+  Masked = {}
 SPECIFICATION Spec
 INVARIANTS PendingInvisible TargetsAreBinders Balanced ScopeDeclarative RenameComplete EmitCase
 CHECK_DEADLOCK FALSE
